@@ -90,6 +90,10 @@ func gen(g *hx.Gen) {
 		emit(g, s.Op, wire.Mutate(r, s.Bytes))
 		countAttack(g, s, 2)
 	}
+	// values whose var-int prefixed fields / element counts sit exactly on the var-int boundaries
+	for _, s := range wire.GenBoundary(r.Fork(77), false) {
+		emit(g, s.Op, s.Bytes)
+	}
 	// every prefix of a few valid encodings (each list position is hit by a truncation)
 	for i := 0; i < g.N(6, 40); i++ {
 		s := wire.GenSample(r)
